@@ -1,0 +1,80 @@
+//! Verification hook: canonical state fingerprint of a `ChunkDeserializer` (feature `verif`).
+use super::super::chunk_header::{ChunkHeader, ChunkHeaderFormat};
+use super::{ChunkDeserializer, ParseStage};
+use messages::MessagePayload;
+use verif_hooks::{push_bytes, push_u32, push_u64};
+
+fn fingerprint_header(header: &ChunkHeader, out: &mut Vec<u8>) {
+    let ChunkHeader {
+        chunk_stream_id,
+        timestamp,
+        timestamp_field,
+        message_length,
+        message_type_id,
+        message_stream_id,
+        can_be_dropped,
+    } = header;
+
+    push_u32(out, *chunk_stream_id);
+    push_u32(out, timestamp.value);
+    push_u32(out, *timestamp_field);
+    push_u32(out, *message_length);
+    out.push(*message_type_id);
+    push_u32(out, *message_stream_id);
+    out.push(*can_be_dropped as u8);
+}
+
+impl ChunkDeserializer {
+    pub fn verif_fingerprint(&self, out: &mut Vec<u8>) {
+        let ChunkDeserializer {
+            max_chunk_size,
+            current_header_format,
+            current_header,
+            current_stage,
+            current_payload,
+            current_payload_data,
+            buffer,
+            previous_headers,
+        } = self;
+
+        push_u64(out, *max_chunk_size as u64);
+        out.push(match *current_header_format {
+            ChunkHeaderFormat::Full => 0,
+            ChunkHeaderFormat::TimeDeltaWithoutMessageStreamId => 1,
+            ChunkHeaderFormat::TimeDeltaOnly => 2,
+            ChunkHeaderFormat::Empty => 3,
+        });
+        fingerprint_header(current_header, out);
+        out.push(match *current_stage {
+            ParseStage::Csid => 0,
+            ParseStage::InitialTimestamp => 1,
+            ParseStage::MessageLength => 2,
+            ParseStage::MessageTypeId => 3,
+            ParseStage::MessageStreamId => 4,
+            ParseStage::MessagePayload => 5,
+            ParseStage::ExtendedTimestamp => 6,
+        });
+
+        let MessagePayload {
+            timestamp,
+            type_id,
+            message_stream_id,
+            data,
+        } = current_payload;
+        push_u32(out, timestamp.value);
+        out.push(*type_id);
+        push_u32(out, *message_stream_id);
+        push_bytes(out, &data[..]);
+
+        push_bytes(out, &current_payload_data[..]);
+        push_bytes(out, &buffer[..]);
+
+        let mut keys: Vec<&u32> = previous_headers.keys().collect();
+        keys.sort();
+        push_u32(out, keys.len() as u32);
+        for key in keys {
+            push_u32(out, *key);
+            fingerprint_header(&previous_headers[key], out);
+        }
+    }
+}
